@@ -40,7 +40,7 @@ def non_execution_logs(rng):
                     elif cfgname == "pool":
                         rt = ThreadPoolRuntime(max_workers=1)
                         try:
-                            process_graphql_query(schema, q, runtime=rt, **kw).result(timeout=20)
+                            process_graphql_query(schema, q, runtime=rt, **kw).result(timeout=90)
                         finally:
                             rt._inner.shutdown()
                     else:
@@ -138,7 +138,7 @@ def history_logs(rng):
                     elif cfgname == "blocking-generic":
                         process_graphql_query(schema, q, runtime=rt, **kw)
                     elif cfgname == "pool":
-                        process_graphql_query(schema, q, runtime=rt, **kw).result(timeout=20)
+                        process_graphql_query(schema, q, runtime=rt, **kw).result(timeout=90)
                     else:
                         async def main():
                             return await process_graphql_query(schema, q, runtime=rt, **kw)
